@@ -83,6 +83,43 @@ class P(FlowFidelity):
             out.append(p5.gen_case(rng))
         return out
 
+    def extra(self, tier, rng, known):
+        """what is PUBLISHED is what the marshaller returned: the real workers (verbose logging on, one worker, then four) process
+        histories of all four protocols, among them sFlow datagrams of many samples (documents of several kilobytes); every
+        message taken off the outgoing queue must parse as one JSON document"""
+        from props import c12
+        p12 = c12.P()
+        gens = {p: Gen(p, go_model(), rng) for p in ("ipfix", "nf9")}
+        cases = []
+        for proto in ("sflow", "ipfix", "nf9", "nf5") * (1 if tier == "quick" else 6):
+            c = dict(p12.cj[p12.case(proto, gens.get(proto), rng)], verbose=True, mirror=False)
+            if proto == "sflow":
+                import props.sfgen as sfgen
+                big = [sfgen.gen_datagram(rng, kinds=["flow"] * k)[0] for k in (4, 5, 6, 8, 4, 6)]
+                c["dgrams"] = c["dgrams"][:60] + [[rand_addr(rng).hex(), q.hex()] for q in big if len(q) <= 8900]
+                c["udpsize"], c["filter"] = 9000, []
+            cases += [dict(c, workers=1, procs=1), dict(c, workers=4, procs=0)]
+        res = vf.run_driver(cases, timeout=900)
+        viol, n, longest = [], 0, 0
+        for c, r in zip(cases, res):
+            if r.get("error"):
+                viol.append({"cases": [json.dumps(c)[:20000]], "verdict": "the %s pipeline failed on this history with verbose logging on: %s" % (c["proto"], r["error"][:300])})
+                break
+            for x in r.get("published") or []:
+                b = bytes.fromhex(x)
+                n += 1
+                longest = max(longest, len(b))
+                try:
+                    json.loads(b.decode("utf-8"))
+                except Exception as e:
+                    viol.append({"cases": [json.dumps(c)[:20000]], "verdict": "a message published by the %s worker (verbose logging on, %d worker(s)) is not a JSON document: %s: %r"
+                                 % (c["proto"], c["workers"], str(e)[:100], b[max(0, getattr(e, "pos", 0) - 60):getattr(e, "pos", 0) + 60])})
+                    break
+            if viol:
+                break
+        return {"violations": viol[:1], "coverage": {"pipeline_cases_verbose": len(cases), "published_messages_parsed": n, "longest_published_octets": longest},
+                "notes": ["%d messages published by the real workers (verbose on) parsed as JSON; longest %d octets" % (n, longest)]}
+
     def check_flow_json(self, proto, addr, d):
         """d: parsed datagram output.  None if fine, else a description."""
         if d["json"] == "-":
